@@ -53,7 +53,8 @@ pub fn roundtrip_event(run: usize, p: &Problem, dir: &str, solve_first: bool, mu
         let load_ok = l2.is_ok();
         let mut s2 = match l2 { Ok(s) => s, Err(e) => return json!({"ev": "RoundTrip", "run": run, "save_ok": save_ok, "load_ok": false, "msg": e.to_string(),
             "settings_equal": false, "timelimit_roundtrip": false, "override_applied": false, "reduced": true, "equil": true, "status_equal": false, "obj_ok": false}) };
-        let settings_equal = settings_value(&s2.settings) == settings_value(&st_saved);
+        // both through serde and through Debug: a field that serde skips is invisible in the first comparison
+        let settings_equal = settings_value(&s2.settings) == settings_value(&st_saved) && format!("{:?}", s2.settings) == format!("{:?}", st_saved);
         let timelimit_roundtrip = s2.settings.time_limit.to_bits() == st_saved.time_limit.to_bits();
         // second load with an override: equilibration/presolve/decomposition off shows the file's content verbatim
         let mut ov = st.clone();
@@ -91,17 +92,37 @@ pub fn roundtrip_event(run: usize, p: &Problem, dir: &str, solve_first: bool, mu
         // numerically fragile problems may legitimately flip under such perturbations)
         let full = |s: SolverStatus| matches!(s, SolverStatus::Solved | SolverStatus::PrimalInfeasible | SolverStatus::DualInfeasible);
         let exact = !st.equilibrate_enable && !reduced && !mutate;
-        let status_equal = if exact { a.status == b.status && a.iterations == b.iterations }
+        let obj_close = |x: f64, y: f64| (x - y).abs() <= 1e-6 * (1.0 + x.abs().max(y.abs()));
+        let mut status_equal = if exact { a.status == b.status && a.iterations == b.iterations }
                            else if full(a.status) && full(b.status) { a.status == b.status } else { true };
-        let obj_ok = if exact { a.obj_val.to_bits() == b.obj_val.to_bits() || (a.obj_val.is_nan() && b.obj_val.is_nan()) }
-                     else { !(a.status == SolverStatus::Solved && b.status == SolverStatus::Solved)
-                            || (a.obj_val - b.obj_val).abs() <= 1e-6 * (1.0 + a.obj_val.abs().max(b.obj_val.abs())) };
+        let mut obj_ok = if exact { a.obj_val.to_bits() == b.obj_val.to_bits() || (a.obj_val.is_nan() && b.obj_val.is_nan()) }
+                     else { !(a.status == SolverStatus::Solved && b.status == SolverStatus::Solved) || obj_close(a.obj_val, b.obj_val) };
+        // The loaded data differ from the originals by rounding when equilibration is on.  Before a differing verdict
+        // is blamed on the file, the same solver is given the ORIGINAL data with random entries moved by one ulp
+        // (128 patterns): if that alone changes the verdict/objective, the instance's outcome is decided by rounding
+        // noise and says nothing about the round trip.
+        let mut sensitive = false;
+        if !exact && !(status_equal && obj_ok) {
+            let mut nrng = StdRng::seed_from_u64(0x5eed ^ run as u64);
+            for _ in 0..128usize {
+                let mut nudge = |v: &[f64]| -> Vec<f64> { v.iter().map(|x| {
+                    if *x == 0.0 || !x.is_finite() { *x } else { match nrng.gen_range(0..3) { 0 => f64::from_bits(x.to_bits() + 1), 1 => f64::from_bits(x.to_bits() - 1), _ => *x } } }).collect() };
+                let mut Pc = P.clone(); Pc.nzval = nudge(&P.nzval);
+                let mut Ac = A.clone(); Ac.nzval = nudge(&A.nzval);
+                let (qc, bc) = (nudge(&p.q), nudge(&p.b));
+                let mut sc = DefaultSolver::new(&Pc, &qc, &Ac, &bc, &p.clarabel_cones(), st_saved.clone());
+                sc.solve();
+                let cs = &sc.solution;
+                if cs.status != a.status || (a.status == SolverStatus::Solved && !obj_close(cs.obj_val, a.obj_val)) { sensitive = true; break; }
+            }
+            if sensitive { status_equal = true; obj_ok = true; }
+        }
         let _ = std::fs::remove_file(format!("{}/rt_{}.json", dir, run));
         json!({"ev": "RoundTrip", "run": run, "save_ok": save_ok, "load_ok": load_ok, "settings_equal": settings_equal,
                "timelimit_roundtrip": timelimit_roundtrip, "override_applied": override_applied, "reduced": reduced,
                "equil": st.equilibrate_enable, "pairs": pairs, "pattern_equal": pattern_equal, "bits_equal": bits_equal,
                "cones_equal": cones_equal, "status_equal": status_equal, "obj_ok": obj_ok,
-               "status": format!("{:?}/{:?}", a.status, b.status)})
+               "status": format!("{:?}/{:?}", a.status, b.status), "rounding_sensitive": sensitive})
     }));
     match res { Ok(v) => v, Err(e) => json!({"ev": "RoundTrip", "run": run, "save_ok": false, "load_ok": false, "panic": crate::rec_ipm::panic_msg(e),
         "settings_equal": false, "timelimit_roundtrip": false, "override_applied": false, "reduced": true, "equil": true, "status_equal": false, "obj_ok": false}) }
@@ -246,6 +267,9 @@ pub fn fault_events(seed: u64, thorough: bool, dir: &str) -> Vec<Value> {
         f.read_to_string(&mut text).unwrap();
         let bytes = text.as_bytes();
         out.push(fault_event(id, bi, "none", "".into(), &text, "ok", dir)); id += 1;
+        // a saved file that an independent reader does not accept is reported by the event above; the fault
+        // generators below navigate the schema and have nothing to work on
+        if classify(&text)["schema_ok"] != json!(true) { continue; }
         // (a) truncation at byte offsets
         let step = if thorough { 1 } else { (bytes.len() / 60).max(1) };
         let mut k = 0;
@@ -302,6 +326,81 @@ pub fn fault_events(seed: u64, thorough: bool, dir: &str) -> Vec<Value> {
     out
 }
 
+pub fn sensitivity(p: &Problem, count: usize) -> Value {
+    let mut rng = StdRng::seed_from_u64(7);
+    let (P, A) = (p.P.to_clarabel(), p.A.to_clarabel());
+    let mut hist = std::collections::BTreeMap::<String, usize>::new();
+    for k in 0..count {
+        let mut nudge = |v: &[f64]| -> Vec<f64> { v.iter().map(|x| {
+            if k == 0 || *x == 0.0 || !x.is_finite() { *x } else { match rng.gen_range(0..3) { 0 => f64::from_bits(x.to_bits() + 1), 1 => f64::from_bits(x.to_bits() - 1), _ => *x } } }).collect() };
+        let mut Pc = P.clone(); Pc.nzval = nudge(&P.nzval);
+        let mut Ac = A.clone(); Ac.nzval = nudge(&A.nzval);
+        let (q, b) = (nudge(&p.q), nudge(&p.b));
+        let mut sc = DefaultSolver::new(&Pc, &q, &Ac, &b, &p.clarabel_cones(), p.settings());
+        sc.solve();
+        *hist.entry(format!("{:?}", sc.solution.status)).or_default() += 1;
+    }
+    json!(hist)
+}
+
+/// Every settings field, one at a time and all together, set to a non-default value directly on the struct
+/// (not through serde), saved with a tiny LP and loaded back; compared through Debug.
+pub fn settings_sweep(dir: &str) -> Vec<Value> {
+    let setters: Vec<(&str, fn(&mut DefaultSettings<f64>))> = vec![
+        ("max_iter", |s| s.max_iter = 17), ("time_limit", |s| s.time_limit = 123.5), ("verbose", |s| s.verbose = !s.verbose),
+        ("max_step_fraction", |s| s.max_step_fraction = 0.875), ("tol_gap_abs", |s| s.tol_gap_abs = 1.5e-7), ("tol_gap_rel", |s| s.tol_gap_rel = 2.5e-7),
+        ("tol_feas", |s| s.tol_feas = 3.5e-7), ("tol_infeas_abs", |s| s.tol_infeas_abs = 4.5e-7), ("tol_infeas_rel", |s| s.tol_infeas_rel = 5.5e-7),
+        ("tol_ktratio", |s| s.tol_ktratio = 6.5e-7), ("reduced_tol_gap_abs", |s| s.reduced_tol_gap_abs = 1.5e-4), ("reduced_tol_gap_rel", |s| s.reduced_tol_gap_rel = 2.5e-4),
+        ("reduced_tol_feas", |s| s.reduced_tol_feas = 3.5e-4), ("reduced_tol_infeas_abs", |s| s.reduced_tol_infeas_abs = 4.5e-11),
+        ("reduced_tol_infeas_rel", |s| s.reduced_tol_infeas_rel = 5.5e-4), ("reduced_tol_ktratio", |s| s.reduced_tol_ktratio = 6.5e-4),
+        ("equilibrate_enable", |s| s.equilibrate_enable = !s.equilibrate_enable), ("equilibrate_max_iter", |s| s.equilibrate_max_iter = 7),
+        ("equilibrate_min_scaling", |s| s.equilibrate_min_scaling = 3e-3), ("equilibrate_max_scaling", |s| s.equilibrate_max_scaling = 3e3),
+        ("linesearch_backtrack_step", |s| s.linesearch_backtrack_step = 0.75), ("min_switch_step_length", |s| s.min_switch_step_length = 0.125),
+        ("min_terminate_step_length", |s| s.min_terminate_step_length = 2e-4), ("max_threads", |s| s.max_threads = 4),
+        // direct_kkt_solver is "required true" (construction panics otherwise, as documented): not swept
+        ("direct_solve_method", |s| s.direct_solve_method = "qdldl".into()),
+        ("static_regularization_enable", |s| s.static_regularization_enable = !s.static_regularization_enable),
+        ("static_regularization_constant", |s| s.static_regularization_constant = 3e-8), ("static_regularization_proportional", |s| s.static_regularization_proportional = 3e-31),
+        ("dynamic_regularization_enable", |s| s.dynamic_regularization_enable = !s.dynamic_regularization_enable),
+        ("dynamic_regularization_eps", |s| s.dynamic_regularization_eps = 3e-13), ("dynamic_regularization_delta", |s| s.dynamic_regularization_delta = 3e-7),
+        ("iterative_refinement_enable", |s| s.iterative_refinement_enable = !s.iterative_refinement_enable),
+        ("iterative_refinement_reltol", |s| s.iterative_refinement_reltol = 3e-13), ("iterative_refinement_abstol", |s| s.iterative_refinement_abstol = 3e-12),
+        ("iterative_refinement_max_iter", |s| s.iterative_refinement_max_iter = 3), ("iterative_refinement_stop_ratio", |s| s.iterative_refinement_stop_ratio = 3.0),
+        ("presolve_enable", |s| s.presolve_enable = !s.presolve_enable), ("chordal_decomposition_enable", |s| s.chordal_decomposition_enable = !s.chordal_decomposition_enable),
+        ("chordal_decomposition_merge_method", |s| s.chordal_decomposition_merge_method = "parent_child".into()),
+        ("chordal_decomposition_compact", |s| s.chordal_decomposition_compact = !s.chordal_decomposition_compact),
+        ("chordal_decomposition_complete_dual", |s| s.chordal_decomposition_complete_dual = !s.chordal_decomposition_complete_dual),
+    ];
+    let P = clarabel::algebra::CscMatrix::<f64>::zeros((1, 1));
+    let A = clarabel::algebra::CscMatrix::new(1, 1, vec![0, 1], vec![0], vec![1.0]);
+    let cones = [SupportedConeT::NonnegativeConeT(1)];
+    let mut out = vec![];
+    for k in 0..=setters.len() {
+        let mut st = DefaultSettings::<f64>::default();
+        st.verbose = false;
+        let name = if k < setters.len() { (setters[k].1)(&mut st); setters[k].0.to_string() } else { for (_, f) in &setters { f(&mut st); } "all".to_string() };
+        let res = catch_unwind(AssertUnwindSafe(|| {
+            // constructed with the settings being stored; no solve, so unusual values cannot matter
+            let s1 = DefaultSolver::new(&P, &[1.0], &A, &[1.0], &cones, st.clone());
+            let mut f = tmpfile(dir, "sweep.json");
+            let save_ok = s1.save_to_file(&mut f).is_ok();
+            f.seek(SeekFrom::Start(0)).unwrap();
+            match DefaultSolver::<f64>::load_from_file(&mut f, None) {
+                Ok(s2) => json!({"save_ok": save_ok, "load_ok": true, "settings_equal": format!("{:?}", s2.settings) == format!("{:?}", st),
+                                 "timelimit_roundtrip": s2.settings.time_limit.to_bits() == st.time_limit.to_bits(), "msg": ""}),
+                Err(e) => json!({"save_ok": save_ok, "load_ok": false, "settings_equal": false, "timelimit_roundtrip": false, "msg": e.to_string()}),
+            }
+        }));
+        let mut v = match res { Ok(v) => v, Err(e) => json!({"save_ok": false, "load_ok": false, "settings_equal": false, "timelimit_roundtrip": false, "panic": crate::rec_ipm::panic_msg(e)}) };
+        v["ev"] = json!("SettingsTrip");
+        v["run"] = json!(k);
+        v["field"] = json!(name);
+        out.push(v);
+    }
+    let _ = std::fs::remove_file(format!("{}/sweep.json", dir));
+    out
+}
+
 pub fn roundtrip_events(seed: u64, count: usize, dir: &str) -> (Vec<Value>, Vec<Value>) {
     let mut rng = StdRng::seed_from_u64(seed);
     let mut lines = vec![];
@@ -315,6 +414,12 @@ pub fn roundtrip_events(seed: u64, count: usize, dir: &str) -> (Vec<Value>, Vec<
             if rng.gen::<f64>() < 0.4 { m.insert("time_limit".into(), json!([0.5, 1e3, 1e-9, 3.25e7][rng.gen_range(0..4)])); }
         }
         p.settings = s;
+        // generalized power cones whose exponents sum to one only up to rounding (the constructor's own tolerance)
+        for c in p.cones.iter_mut() {
+            if let ConeSpec::GenPow(al, _) = c {
+                if al.len() == 3 && rng.gen::<f64>() < 0.5 { *al = [vec![0.2, 0.7, 0.1], vec![0.3, 0.6, 0.1], vec![0.1, 0.2, 0.7]][rng.gen_range(0..3)].clone(); }
+            }
+        }
         // extreme finite values and empty matrices now and then
         if rng.gen::<f64>() < 0.1 { p.P = Csc::zeros(p.n(), p.n()); }
         if rng.gen::<f64>() < 0.1 && !p.q.is_empty() { p.q[0] = 1.2345678901234567e300; }
